@@ -1,7 +1,8 @@
 """C12 — identifier octets <-> tags"""
 from common import *
 
-THEOREMS = ['new_octets', 'new_number_class', 'write_eq_spec', 'takeOptFrom_eq_spec', 'takeFrom_eq_spec', 'tagOf_inj', 'takeFromIf_eq_spec', 'consts_universal', 'consts_distinct', 'low_tag_octets']
+THEOREMS = ['new_octets', 'new_number_class', 'write_eq_spec', 'takeOptFrom_eq_spec', 'takeFrom_eq_spec', 'tagOf_inj', 'takeFromIf_eq_spec', 'consts_universal', 'consts_distinct', 'low_tag_octets', 'Bcder.Props.C12b.read_write', 'Bcder.Props.C12b.write_prefix_free']
+EXTRA_MODULES = ['C12b']
 RULE = ("tag.new: every class x numbers within +-40 of 0,30,31,127,128,16383,16384,0x1FFFFF plus random; "
         "tag.take/takeopt: every first octet x following octets from a boundary alphabet up to 5 octets, complete and truncated; "
         "tag.takeif: expected tags of 1-4 octets against equal / different / prefix-sharing / non-minimal / truncated identifiers. "
@@ -101,5 +102,5 @@ def gen(tier, rng):
     return out
 
 LEVEL = "proof"
-LEVEL_TEXT = "Lean 4 theorems for all 4 classes x all numbers <= 0x1FFFFF x both constructed flags and for ALL identifier octet strings: Tag::new stores the octets of (class, number), number()/class recover them (new_number_class), write_encoded is the reference minimal X.690 form with the reported size (write_eq_spec), take_opt_from/take_from equal the reference reader on every input and return exactly the constructed tag of the class and number encoded - so equal class/number never give unequal tags and distinct identifier octets never give equal tags (takeFrom_eq_spec, tagOf_inj), truncated/over-long/non-minimal identifiers are rejected, and take_from_if consumes the identifier exactly when it is the expected tag's and leaves the source untouched otherwise (takeFromIf_eq_spec). Correspondence: ~230k requests incl. all identifier strings of <= 2 octets; thorough: all 4 x 2^21 numbers."
+LEVEL_TEXT = "Lean 4 theorems for all 4 classes x all numbers <= 0x1FFFFF x both constructed flags and for ALL identifier octet strings: Tag::new stores the octets of (class, number), number()/class recover them (new_number_class), write_encoded is the reference minimal X.690 form with the reported size (write_eq_spec), writing then reading returns the same tag and form and consumes exactly what was written, and identifier octets are self-delimiting (C12b.read_write, C12b.write_prefix_free), take_opt_from/take_from equal the reference reader on every input and return exactly the constructed tag of the class and number encoded - so equal class/number never give unequal tags and distinct identifier octets never give equal tags (takeFrom_eq_spec, tagOf_inj), truncated/over-long/non-minimal identifiers are rejected, and take_from_if consumes the identifier exactly when it is the expected tag's and leaves the source untouched otherwise (takeFromIf_eq_spec). Correspondence: ~230k requests incl. all identifier strings of <= 2 octets; thorough: all 4 x 2^21 numbers."
 LEVEL_NOTE = "Trusted: Lean 4.33 kernel; axioms propext, Classical.choice, Quot.sound only; the hand-written model (lean/Bcder/Model) tied to /repo on every run by differential correspondence (tools/check.py, harness/, lean/Driver.lean); reference definitions lean/Bcder/Spec. Tag::new's documented assertion (number > 0x1FFFFF) is excluded. The predefined constants: the thirteen the model's readers use are proved to be tagOf 0 n for their X.680 numbers and pairwise distinct (consts_universal, consts_distinct); all 43 constants of src/tag.rs are compared with Tag::new(class, number) of their X.680 numbers by the correspondence (tag.const)."
